@@ -20,27 +20,77 @@ HERE = os.path.dirname(os.path.abspath(__file__))
 _PORT_SEQ = [0]
 
 
+def _port_bounds():
+    low, high = 10000, 32000
+    try:
+        lo, hi = [int(x) for x in open("/proc/sys/net/ipv4/ip_local_port_range").read().split()]
+        if lo > 12000:
+            high = min(high, lo - 1)
+        elif hi < 50000:
+            low, high = hi + 1, 65000
+    except (OSError, ValueError):
+        pass
+    return low, high
+
+
+PORT_LOW, PORT_HIGH = _port_bounds()
+PORT_LOCKS = os.path.join(os.environ.get("VERIF_SCRATCH", "/var/tmp"), "verif-port-locks")
+
+
+def _claim(port):
+    """Cross-process ownership of a port number (several checks may run at the same time): a lock
+    file created with O_EXCL, holding our pid; a lock whose owner is dead is taken over."""
+    os.makedirs(PORT_LOCKS, exist_ok=True)
+    lp = os.path.join(PORT_LOCKS, "%d.lock" % port)
+    for _ in range(2):
+        try:
+            fd = os.open(lp, os.O_CREAT | os.O_EXCL | os.O_WRONLY, 0o644)
+            os.write(fd, str(os.getpid()).encode())
+            os.close(fd)
+            return True
+        except FileExistsError:
+            try:
+                owner = int(open(lp).read().strip() or "0")
+            except (OSError, ValueError):
+                owner = 0
+            if owner and os.path.exists("/proc/%d" % owner):
+                return False
+            try:
+                os.unlink(lp)           # stale: its owner is gone
+            except OSError:
+                return False
+    return False
+
+
+def release_port(port):
+    try:
+        os.unlink(os.path.join(PORT_LOCKS, "%d.lock" % port))
+    except OSError:
+        pass
+
+
 def free_port():
-    """A free port from a range that belongs to this worker process alone (a port handed out by
-    the kernel could be handed to another worker before our server has bound it: two
-    deployments would then talk to each other's servers)."""
-    base = 21000 + (os.getpid() % 1900) * 20
-    for _ in range(40):
-        p = base + _PORT_SEQ[0] % 20
+    """A port nobody listens on, claimed for this process (see _claim): a port handed out by the
+    kernel could be handed to another worker before our server has bound it - two deployments
+    would then talk to each other's servers."""
+    # (below the kernel's ephemeral range - see PORT_LOW / PORT_HIGH: a port in that range can be
+    #  taken as the source port of any outgoing connection between our test and the server's bind)
+    base = PORT_LOW + (os.getpid() % ((PORT_HIGH - PORT_LOW) // 20)) * 20
+    for k in range(400):
+        p = base + _PORT_SEQ[0] % 20 if k < 40 else PORT_LOW + (base + k * 7 + _PORT_SEQ[0]) % (PORT_HIGH - PORT_LOW)
         _PORT_SEQ[0] += 1
+        if not _claim(p):
+            continue
         s = socket.socket()
         try:
             s.bind(("127.0.0.1", p))
             return p
         except OSError:
+            release_port(p)
             continue
         finally:
             s.close()
-    s = socket.socket()
-    s.bind(("127.0.0.1", 0))
-    p = s.getsockname()[1]
-    s.close()
-    return p
+    raise RuntimeError("no free port")
 
 
 def http(port, method, target, headers=(), body=None, timeout=30):
@@ -78,6 +128,21 @@ def _http(port, method, target, headers=(), body=None, timeout=30):
 
 class Server:
     def __init__(self, frontend, directory, prefix, principal, flags):
+        for attempt in range(4):
+            self._launch(frontend, directory, prefix, principal, flags)
+            if self.up or self.proc.poll() is None:
+                return
+            err = ""
+            try:
+                err = self.proc.stderr.read().decode("utf-8", "replace")
+            except Exception:
+                pass
+            self._early_stderr = err
+            if "Address already in use" not in err and "address already in use" not in err:
+                return
+            release_port(self.port)         # somebody else got the port first: another one
+
+    def _launch(self, frontend, directory, prefix, principal, flags):
         self.port = free_port()
         env = dict(os.environ)
         env["PYTHONPATH"] = os.environ.get("PYTHONPATH", "/verif:/repo")
@@ -115,10 +180,11 @@ class Server:
             self.proc.wait(5)
         except Exception:
             pass
+        release_port(self.port)
         try:
-            self.stderr = self.proc.stderr.read().decode("utf-8", "replace")[-500:]
+            self.stderr = (getattr(self, "_early_stderr", "") + self.proc.stderr.read().decode("utf-8", "replace"))[-2000:]
         except Exception:
-            self.stderr = ""
+            self.stderr = getattr(self, "_early_stderr", "")[-500:]
 
 
 def resolve(base_target, href):
@@ -326,10 +392,14 @@ def _run_config(frontend, prefix, principal, flagseq, storage="tree"):
                 if srv.proc.poll() is None:
                     raise Unreachable(repr(exc))
                 # the server process ended in the middle of the walk: an observation
+                rc_ = srv.proc.poll()
                 rec["up"] = False
                 srv.stop()
-                rec["trail"] = (rec.get("trail") or "") + " connection failed: %r; server process ended: %s" % (
-                    exc, getattr(srv, "stderr", "")[-300:])
+                if os.environ.get("VERIF_DEBUG"):
+                    with open("/var/tmp/c18_debug.log", "a") as df:
+                        df.write("=== port %s exit %r\n%s\n" % (srv.port, rc_, getattr(srv, "stderr", "")))
+                rec["trail"] = (rec.get("trail") or "") + " connection failed: %r; server process ended (exit %r): %s" % (
+                    exc, rc_, getattr(srv, "stderr", "")[-1500:])
             finally:
                 srv.stop()
             if storage == "bare" and user and not user.get("converted"):
